@@ -324,6 +324,7 @@ class Sess:
         self.log = []
         self.use_ring = use_ring; self.use_mirror = use_mirror; self.p_realdec = p_realdec
         self.failed_state = set()     # streams whose last compression failed (must be reset before reuse)
+        self.hmodel = {}              # HC sid -> the extracted lz4mid model is synchronised with the real context
         if self.orc:
             a = self.orc.ask("reset")
             if a != "ok":
@@ -598,7 +599,90 @@ class Sess:
         if dbytes and self.arena.read(daddr, len(dbytes)) != dbytes:
             self.fail("prop_fail", "%s modified the dictionary buffer" % what)
 
-    # ------------------------------------------------------------ HC streams (direct oracles only)
+    # ------------------------------------------------------------ HC streams
+    # levels 1-2 (LZ4MID): every call is mirrored on the extracted Model.HcMidStream and the whole lz4mid view of the
+    # context is compared; levels >= 3 and calls that reach the dictionary-context search: direct oracles only.
+    def haddr(self, ptr):
+        if not ptr: return 0
+        return self.arena.addr(ptr) if self.arena.inside(ptr) else -1
+    def hview(self, sid):
+        """the lz4mid view of the real context, in the model's vocabulary"""
+        s = self.hstate(sid)
+        raw = self.hc[sid].bytes(131072)
+        did = -1
+        if s["dctx"]:
+            did = -2
+            for k, b in self.hc.items():
+                if b.p == s["dctx"]: did = k
+        return {"end": self.haddr(s["end"]), "ps": self.haddr(s["prefixStart"]), "ds": self.haddr(s["dictStart"]),
+                "dl": s["dictLimit"], "ll": s["lowLimit"], "ntu": s["nextToUpdate"], "lvl": s["level"], "dirty": 1 if s["dirty"] else 0,
+                "dctx": did, "h4": md5(raw[:65536]), "h8": md5(raw[65536:]), "raw": raw}
+    def h_import(self, sid):
+        """(re)synchronise the model with the real context: used after calls that are outside the model"""
+        v = self.hview(sid)
+        if v["end"] < 0 or v["ps"] < 0 or v["ds"] < 0:
+            return False
+        a = self.orc.ask("himport", str(sid), str(v["end"]), str(v["ps"]), str(v["ds"]), str(v["dl"]), str(v["ll"]), str(v["ntu"]),
+                         str(v["lvl"]), str(v["dirty"]), v["raw"].hex())
+        if "=" not in a:
+            self.fail("harness_error", "stream oracle himport: " + a[:200])
+        if v["dctx"] >= 0:
+            if not self.hmodel.get(v["dctx"]):
+                self.h_import(v["dctx"])
+            self.orc.ask("hatt", str(sid), str(v["dctx"]))
+        elif v["dctx"] == -1:
+            self.orc.ask("hatt", str(sid), "-1")
+        self.hmodel[sid] = True
+        self.res["stats"]["hc_model_import"] += 1
+        return True
+    def h_model_ready(self, sid, mid_op):
+        """is this call mirrored?  [mid_op]: the call runs the lz4mid code (level 1-2) or is pure bookkeeping on a synchronised model"""
+        if not self.orc:
+            return False
+        if self.hmodel.get(sid):
+            d = self.hview(sid)["dctx"]
+            if d >= 0 and not self.hmodel.get(d):
+                self.h_import(d); self.orc.ask("hatt", str(sid), str(d))
+            return True
+        if not mid_op:
+            return False
+        return self.h_import(sid)
+    def hcmp(self, sid, opname, ret, out, consumed=None, extra=None):
+        a = self.model_answer
+        st = self.res["stats"]
+        if a == "out":
+            self.hmodel[sid] = False
+            st["hc_model_out"] += 1
+            return
+        t = a.split()
+        if len(t) < 4 or "=" not in a:
+            self.fail("harness_error", "stream oracle answered '%s' to %s" % (a[:200], opname))
+        m = {"ret": int(t[0]), "consumed": int(t[1]), "len": int(t[2]), "md5": t[3]}
+        for x in t[4:]:
+            k, v = x.split("="); m[k] = v
+        c = self.hview(sid)
+        bad = None
+        if m["ret"] != ret:
+            bad = "return value: model %d, code %d" % (m["ret"], ret)
+        elif out is not None and ret > 0 and (m["len"] != len(out) or m["md5"] != md5(out)):
+            bad = "output bytes differ (ret=%d)" % ret
+        elif consumed is not None and ret > 0 and consumed != m["consumed"]:
+            bad = "consumed: model %d, code %d" % (m["consumed"], consumed)
+        else:
+            names = ["end", "ps", "ds", "dl", "ll", "ntu", "lvl", "dirty", "h4", "h8"]
+            diff = ["%s: code %s model %s" % (k, c[k], m[k]) for k in names if str(c[k]) != m[k]]
+            if (c["dctx"] != -1) != (m["dctx"] == "1"):
+                diff.append("dictCtx!=NULL: code %s model %s" % (c["dctx"] != -1, m["dctx"]))
+            if diff:
+                bad = "context after the call differs (end/ps/ds = end/prefixStart/dictStart, dl/ll/ntu = dictLimit/lowLimit/nextToUpdate): " + "; ".join(diff)
+        if bad is None and extra:
+            for k, v in extra.items():
+                if m.get(k) != v:
+                    bad = "%s: code %s model %s" % (k, v, m.get(k))
+        self.res["evals"] += 1
+        st["hc_model_compared"] += 1
+        if bad:
+            self.fail("corr_fail", "HcMidStream model/code disagree after %s: %s" % (opname, bad))
     def hstate(self, sid):
         raw = self.hc[sid].bytes(40, HC_OFF)
         end, ps, dstart = struct.unpack_from("<QQQ", raw, 0)
@@ -625,6 +709,8 @@ class Sess:
         self.dec[("h", sid)] = DecSide(self, "hc%d" % sid, 16)
         self.lib.initStreamHC(self.hc[sid].p, n)
         self.log.append("init h%d" % sid)
+        if self.orc:
+            self.ask("hinit", sid); self.hmodel[sid] = True; self.hcmp(sid, "LZ4_initStreamHC", 0, None)
         if level is not None:
             self.h_level(sid, level)
     def h_init(self, sid):
@@ -632,14 +718,20 @@ class Sess:
         self.log.append("init h%d" % sid)
         self.failed_state.discard(("h", sid))
         self.dec[("h", sid)].reset()
+        if self.orc:
+            self.ask("hinit", sid); self.hmodel[sid] = True; self.hcmp(sid, "LZ4_initStreamHC", 0, None)
     def h_level(self, sid, level):
+        ready = self.h_model_ready(sid, False)
         self.lib.setCompressionLevel(self.hc[sid].p, level)
         self.log.append("level h%d %d" % (sid, level))
+        if ready:
+            self.ask("hlvl", sid, level); self.hcmp(sid, "LZ4_setCompressionLevel", 0, None)
     def h_favor(self, sid, f):
         self.lib.favorDecompressionSpeed(self.hc[sid].p, f)
         self.log.append("favor h%d %d" % (sid, f))
     def h_reset_fast(self, sid, level):
         dirty = self.hstate(sid)["dirty"]
+        ready = self.h_model_ready(sid, False)
         self.lib.resetStreamHC_fast(self.hc[sid].p, level)
         self.log.append("rsf h%d level=%d (dirty was %d)" % (sid, level, dirty))
         self.res["stats"]["hc_reset_fast" + ("_dirty" if dirty else "")] += 1
@@ -648,7 +740,16 @@ class Sess:
         s = self.hstate(sid)
         if s["dirty"] or s["dctx"]:
             self.fail("prop_fail", "LZ4_resetStreamHC_fast left dirty=%d dictCtx=%x" % (s["dirty"], s["dctx"]))
+        if ready:
+            self.ask("hrsf", sid, level); self.hcmp(sid, "LZ4_resetStreamHC_fast", 0, None)
+        elif self.orc and dirty:
+            # a dirty context is fully re-initialised: the model is synchronised again
+            self.ask("hinit", sid); self.ask("hlvl", sid, level); self.hmodel[sid] = True; self.hcmp(sid, "LZ4_resetStreamHC_fast (dirty)", 0, None)
     def h_load(self, sid, addr, n):
+        mid = self.hstate(sid)["level"] <= 2
+        if self.orc and mid and not self.hmodel.get(sid):
+            self.orc.ask("hlvl", str(sid), str(self.hstate(sid)["level"])); self.hmodel[sid] = True    # loadDictHC only reads the level
+        ready = self.orc is not None and self.hmodel.get(sid, False)
         r = self.lib.loadDictHC(self.hc[sid].p, self.arena.ptr(addr), n)
         self.log.append("ld h%d %d+%d -> %d" % (sid, addr - BASE, n, r))
         self.res["stats"]["loadDictHC"] += 1
@@ -656,9 +757,18 @@ class Sess:
         if r != min(n, K64):
             self.fail("prop_fail", "LZ4_loadDictHC(%d) returned %d" % (n, r))
         self.dec[("h", sid)].reset(self.arena.read(addr, n), addr)
+        if ready:
+            self.ask("hld", sid, addr, n); self.hcmp(sid, "LZ4_loadDictHC", r, None)
+        elif self.orc:
+            self.hmodel[sid] = False
         return r
     def h_attach(self, sid, did):
+        ready = self.h_model_ready(sid, False)
         self.lib.attach_HC_dictionary(self.hc[sid].p, self.hc[did].p if did is not None else None)
+        if ready:
+            if did is not None and not self.hmodel.get(did):
+                self.h_import(did)
+            self.ask("hatt", sid, did if did is not None else -1); self.hcmp(sid, "LZ4_attach_HC_dictionary", 0, None)
         self.log.append("att h%d <- %s" % (sid, "h%d" % did if did is not None else "NULL"))
         self.res["stats"]["attach_HC"] += 1
         if did is not None:
@@ -687,15 +797,22 @@ class Sess:
             self.fail("prop_fail", "%s modified the attached dictionary stream (LZ4_streamHC_t differs byte-wise after use)" % what)
         if dbytes and self.arena.read(a, len(dbytes)) != dbytes:
             self.fail("prop_fail", "%s modified the dictionary buffer" % what)
-    def h_continue(self, sid, addr, n, cap):
+    def h_continue(self, sid, addr, n, cap, destsize=False):
         dst = Buf(max(cap, 0), fill=0xC3)
         src = self.arena.read(addr, n)
         snap = self.h_snap(sid)
         lvl = self.hstate(sid)["level"]
-        r = self.lib.compress_HC_continue(self.hc[sid].p, self.arena.ptr(addr), dst.p, n, cap)
+        ready = self.h_model_ready(sid, lvl <= 2)
+        consumed = n
+        if destsize:
+            sz = c_int(n)
+            r = self.lib.compress_HC_continue_destSize(self.hc[sid].p, self.arena.ptr(addr), dst.p, byref(sz), cap)
+            consumed = sz.value
+        else:
+            r = self.lib.compress_HC_continue(self.hc[sid].p, self.arena.ptr(addr), dst.p, n, cap)
         out = dst.bytes(r) if 0 < r <= cap else b""
         dst.free()
-        self.log.append("cont h%d %d+%d cap=%d lvl=%d -> %d" % (sid, addr - BASE, n, cap, lvl, r))
+        self.log.append("%s h%d %d+%d cap=%d lvl=%d -> %d (%d)" % ("cds" if destsize else "cont", sid, addr - BASE, n, cap, lvl, r, consumed))
         st = self.res["stats"]
         st["hc_continue"] += 1; st["hc_level_" + lvl_class(lvl)] += 1
         st["hc_ret_" + ("pos" if r > 0 else "zero")] += 1
@@ -706,19 +823,35 @@ class Sess:
             self.fail("prop_fail", "compression modified its source")
         self.h_check_snap(snap, "LZ4_compress_HC_continue")
         s = self.hstate(sid)
-        if r > 0:
-            self.dec[("h", sid)].maxblock = max(self.dec[("h", sid)].maxblock, n)
-            self.dec[("h", sid)].block(src, out, addr)
-        else:
-            self.failed_state.add(("h", sid))
-            if not s["dirty"]:
-                self.fail("prop_fail", "LZ4_compress_HC_continue returned %d but did not set the dirty flag" % r)
-            if cap >= bound(n):
-                self.fail("prop_fail", "LZ4_compress_HC_continue failed with capacity %d >= LZ4_compressBound(%d)" % (cap, n))
+        try:
+            if destsize:
+                st["hc_continue_destSize" + ("_partial" if 0 < r and consumed < n else "")] += 1
+                if r > 0 and not (0 <= consumed <= n):
+                    self.fail("prop_fail", "LZ4_compress_HC_continue_destSize consumed %d of %d" % (consumed, n))
+            if r > 0:
+                self.dec[("h", sid)].maxblock = max(self.dec[("h", sid)].maxblock, n)
+                self.dec[("h", sid)].block(src[:consumed], out, addr)
+            else:
+                self.failed_state.add(("h", sid))
+                if not s["dirty"] and not (destsize and cap < 1):
+                    self.fail("prop_fail", "LZ4_compress_HC_continue returned %d but did not set the dirty flag" % r)
+                if cap >= bound(n) and not destsize:
+                    self.fail("prop_fail", "LZ4_compress_HC_continue failed with capacity %d >= LZ4_compressBound(%d)" % (cap, n))
+        finally:
+            if ready:
+                if destsize: self.ask("hcds", sid, addr, n, cap)
+                else: self.ask("hcont", sid, addr, n, cap)
+                if not self.res["fails"]:
+                    self.hcmp(sid, "LZ4_compress_HC_continue" + ("_destSize" if destsize else ""), r, out, consumed=consumed if destsize else None)
+            elif self.orc:
+                self.hmodel[sid] = False
+        if destsize:
+            return r, out, consumed
         return r, out
     def h_save(self, sid, addr, n):
         s0 = self.hstate(sid)
         pre = s0["end"] - s0["prefixStart"] if s0["prefixStart"] else 0
+        ready = self.h_model_ready(sid, False)
         r = self.lib.saveDictHC(self.hc[sid].p, self.arena.ptr(addr) or None, n)
         self.log.append("save h%d %d+%d -> %d" % (sid, addr - BASE, n, r))
         self.res["stats"]["saveDictHC"] += 1
@@ -730,6 +863,12 @@ class Sess:
         d = self.dec[("h", sid)]
         if r > 0 and len(d.H) >= r and d.H[-r:] != self.arena.read(addr, r):
             self.fail("prop_fail", "LZ4_saveDictHC did not save the last %d bytes of the stream" % r)
+        if ready:
+            self.ask("hsave", sid, addr, n)
+            self.hcmp(sid, "LZ4_saveDictHC", r, None, extra={"mem": md5(self.arena.read(addr, r))})
+        elif self.orc and r > 0:
+            # keep the model's memory in step even when the context is not compared
+            a = self.orc.ask("w", str(addr), hx(self.arena.read(addr, r)))
         d.mirror_save(addr, r)
         return r
     def h_oneshot(self, sid, kind, addr, n, cap, level):
@@ -737,6 +876,8 @@ class Sess:
         dst = Buf(max(cap, 0), fill=0xC3)
         src = self.arena.read(addr, n)
         f = self.lib.compress_HC_extStateHC_fastReset if kind == "fr" else self.lib.compress_HC_extStateHC
+        mid = 1 <= level <= 2
+        ready = (self.orc is not None and mid) if kind == "ext" else self.h_model_ready(sid, mid)
         r = f(self.hc[sid].p, self.arena.ptr(addr), dst.p, n, cap, level)
         out = dst.bytes(r) if 0 < r <= cap else b""
         dst.free()
@@ -750,13 +891,22 @@ class Sess:
         if r < 0 or r > max(cap, 0):
             self.fail("prop_fail", "HC one-shot (%s) returned %d with capacity %d" % (kind, r, cap))
         s = self.hstate(sid)
-        if r > 0:
-            self.independent(src, out, "HC one-shot %s level %d" % (kind, level))
-        else:
-            if not s["dirty"]:
-                self.fail("prop_fail", "HC one-shot returned %d but did not set the dirty flag" % r)
-            if cap >= bound(n):
-                self.fail("prop_fail", "HC one-shot failed with capacity %d >= bound" % cap)
+        try:
+            if r > 0:
+                self.independent(src, out, "HC one-shot %s level %d" % (kind, level))
+            else:
+                if not s["dirty"]:
+                    self.fail("prop_fail", "HC one-shot returned %d but did not set the dirty flag" % r)
+                if cap >= bound(n):
+                    self.fail("prop_fail", "HC one-shot failed with capacity %d >= bound" % cap)
+        finally:
+            if ready:
+                self.ask("hfr" if kind == "fr" else "hext", sid, addr, n, cap, level)
+                self.hmodel[sid] = True
+                if not self.res["fails"]:
+                    self.hcmp(sid, "LZ4_compress_HC_extStateHC" + ("_fastReset" if kind == "fr" else ""), r, out)
+            elif self.orc:
+                self.hmodel[sid] = False
         return r, out
     def h_shift(self, sid, delta):
         """state injection for HC: shift every index (hash table entries, dictLimit, lowLimit, nextToUpdate)"""
@@ -769,11 +919,12 @@ class Sess:
                                          (s["nextToUpdate"] + delta) & 0xFFFFFFFF))
         self.log.append("shift h%d +%d (dictLimit %d)" % (sid, delta, s["dictLimit"]))
         self.res["stats"]["state_injection_hc"] += 1
+        self.hmodel[sid] = False          # the model is re-synchronised (himport) before the next mirrored call
 
 def size_class(n):
     return "0" if n == 0 else "1-12" if n <= 12 else "<4K" if n < 4096 else "4K" if n <= 4097 else "<64K" if n < 65536 else ">=64K"
 def lvl_class(l):
-    return "mid" if l == 2 else "hc" if 3 <= l <= 9 else "opt" if l >= 10 else "dflt"
+    return "mid" if 1 <= l <= 2 else "hc" if 3 <= l <= 9 else "opt" if l >= 10 else "dflt"
 
 # ------------------------------------------------------------------ placement rule
 def legal_source(regions, s, n):
@@ -963,6 +1114,11 @@ def scen_stream(S, rng, fam, kind, M, nblocks, p):
                 r, out = S.f_continue(sid, a, n, 0, 1, force_ext=True)
             else:
                 r, out = S.f_continue(sid, a, n, cap, acc, expect_ok=cap >= bound(n))
+        elif rng.random() < p.get("pdestsize", 0.08) and n > 0:
+            tgt = rng.choice([max(1, n // 2), max(1, n // 3 + 8), 20, 13, 1, bound(n), max(1, rng.randrange(1, bound(n) + 1))])
+            r, out, consumed = S.h_continue(sid, a, n, tgt, destsize=True)
+            if r <= 0 and tgt >= 1 and not S.hstate(sid)["dirty"]:
+                S.fail("prop_fail", "LZ4_compress_HC_continue_destSize returned %d without setting dirty" % r)
         else:
             r, out = S.h_continue(sid, a, n, cap)
         if r <= 0:
